@@ -3298,6 +3298,8 @@ class ISLaSolver:
                     self.logger.debug(
                         "Dropping state %s, unsatisfiable SMT formulas", new_state
                     )
+                    # The state is gone; it must not be examined (and removed) again.
+                    continue
 
                 # Remove states with unsatisfiable existential formulas.
                 existential_formulas = [
